@@ -110,6 +110,13 @@ def runCase (c : Case) : String × String :=
     let m2 := buildDict (c.nat "w") (c.nat "k") (c.flag "rc") alt
     let sd := Spec.specDict (c.nat "k") (c.flag "rc") recs
     (s!"{showB m1} eq:{b2s (m1 == m2)}", s!"{if sd.isEmpty then "novalid" else showDict sd} eq:1")
+  | "bloom" =>
+    -- the Bloom step of a fresh filter on raw hash values
+    let keys := (c.list "keys").filterMap String.toNat?
+    let (_, bits) := keys.foldl (fun (st : KmerFilter × List Char) key =>
+      let (f, seen) := KmerFilter.bloomAddAndCheck st.1 key
+      (f, st.2 ++ [if seen then '1' else '0'])) (({ minCount := 2 } : KmerFilter), [])
+    (String.ofList bits, "-")
   | "reads" =>
     -- reads are `SEQ:QUAL` with QUAL letters 'A' + phred
     let parse (key : String) : List Read := (c.list key).filterMap (fun item =>
